@@ -614,3 +614,40 @@ def rule_copy(ctx, prop):
                                   f"follows on its line", f.loc(t["sp"]), cfg)
         rep.floor("getter-copied comments that are re-attached", n, 2, cfg)
     return rep
+
+
+def rule_closure_raw(ctx, prop):
+    """`formatted.map(|_| if can_hang(original) { hang(original) } else { original.to_owned() })`: the else branch hands the input
+    back as written - quotes, call parentheses, spacing and line endings of that node are the input's"""
+    rep = Report(prop, "R-RAWNODE(closure)", "a closure of an ordinary formatter (not the range-only visitor) that returns an AST node returns one "
+                                             "that came out of a formatter / constructor on every path - never a bare clone of a captured or "
+                                             "parameter node")
+    for cfg, prog in ctx.programs.items():
+        n = 0
+        for g in prog.fns("stylua_lib"):
+            if g.kind != "Closure" or not g.path.startswith("formatters::") or "stmt_block::" in g.path or \
+                    g.path.startswith("formatters::block::format_last_stmt_block"):
+                continue
+            if not g.locals[0].startswith("full_moon::ast::"):
+                continue
+            try:
+                res = Enumerator(g, max_paths=5000).run()
+            except TooManyPaths:
+                rep.note(f"@{cfg}: {g.path}: too many paths (not evaluated)")
+                continue
+            n += 1
+            raw = None
+            for st in res:
+                pr = _producers(g, st, st.vals.get(0))
+                if pr & {"to_owned", "clone"}:
+                    raw = st
+                    break
+            rep.inst(f"{g.key} returns formatted nodes only", {"paths": len(res)}, cfg, ok=raw is None)
+            if raw is not None:
+                conds = sorted({callee(g.blocks[cb]["term"]).split("::")[-1] + "=" + str(d) for cb, d in raw.decisions.items()})
+                rep.violation(f"{g.key} closure-returns-unformatted-clone",
+                              f"{g.path} has a path ({conds or 'unconditional'}) on which it returns a clone of an input node instead of a "
+                              f"formatted one: that node is emitted as the input wrote it (quote style, call parentheses, spacing after "
+                              f"function names, indentation and line endings of the configuration are not applied to it)", g.loc(), cfg)
+        rep.floor("closures of ordinary formatters returning AST nodes", n, 10, cfg)
+    return rep
